@@ -512,6 +512,9 @@ def c07(tier, seed):
     jobs = [(n, s, tp["dmax"], c) for c in boxes.COSTS for n in range(1, tp["nmax_h"] + 1)
             for s in range(1, (3 if tier == "quick" else 4) + 1)]
     if tier == "thorough":
+        # a few larger instances: candidate lists longer than 32, many disk units
+        for c in ((1, 1, 2, 2), (1, 1, 3, 5), (2, 1, 10, 9)):
+            jobs += [(35, 1, 4, c), (34, 1, 10, c), (40, 2, 7, c), (60, 3, 5, c)]
         rng = random.Random(seed)
         for _ in range(150):
             c = (rng.choice([1, 2, 3, .5, 1.5, 7]), rng.choice([1, 2, 3, .5]),
@@ -867,6 +870,8 @@ def c13(tier, seed):
                     for tr in boxes.TRAJ:
                         specs.append(("TwoLevel", (period, b), (("binomial_storage", st),
                                                                 ("binomial_trajectory", tr)), N))
+    if tier == "thorough":
+        specs = list(specs) + [sp_ for sp_ in boxes.deep_specs() if sp_[0] == "TwoLevel"]
     out = _pool_map(_c13_worker, specs)
     for spec, viol, count in out:
         r["evaluations"] += 1
